@@ -7,7 +7,8 @@ EXPLANATION = ("Static rules over quinn-proto MIR: (a) each receive-side limit h
                "CRYPTO_BUFFER_EXCEEDED); (b) those guards dominate buffering (Assembler::insert, incoming.push_back) and application notification; the datagram "
                "receive buffer evicts in a loop until the new datagram fits; (c) connection credit is returned only by the four legitimate callers of "
                "add_read_credits with the stated amounts; MAX_STREAM_DATA bookkeeping only from write_control_frames; (d) local_max_data / sent_max_* / "
-               "receive_window_shrink_debt store idioms; (e) transport errors from the receive path propagate through `?`. The numeric bound "
+               "receive_window_shrink_debt store idioms; (e) transport errors from the receive path propagate through `?`; (f) ingest()/reset() are checked against "
+               "(self.data_recvd, self.local_max_data), forward them to credit_consumed_by, and every accepting path adds the new bytes to data_recvd. The numeric bound "
                "'buffered <= window' is NOT decided.")
 RULE = "rule instances = (rule, site) pairs over MIR branches / stores / call sites; non-trivial = bound to at least one real site"
 SS = 'StreamsState'
@@ -223,7 +224,58 @@ def rule_e(ctx):
         ctx.check(bool(tb), 'e', 'receive_errors_propagate', pe, c.where(), '%s(..)?' % short(c.f), 'the Result of %s is not propagated with `?`' % short(c.f))
 
 
+def rule_f(ctx):
+    """the connection-level counters the guards compare are the real ones, and every accepted frame is accounted"""
+    F = ctx.facts
+    rcv = ctx.pfn('StreamsState::received')
+    rr = ctx.pfn('StreamsState::received_reset')
+    for fn_, callee, instance in ((rcv, 'Recv::ingest', 'ingest'), (rr, 'Recv::reset', 'reset')):
+        cs = fn_.calls_to(callee)
+        ctx.floor('f', '%s_sites' % instance, len(cs), 1)
+        for c in cs:
+            a_recv, a_max = arg_desc(F, c, len(c.args) - 2), arg_desc(F, c, len(c.args) - 1)
+            ok = a_recv[0] == 'field' and a_recv[2] == 'data_recvd' and a_max[0] == 'field' and a_max[2] == 'local_max_data'
+            ctx.check(ok, 'f', '%s_given_real_counters' % instance, fn_, c.where(), '(%s, %s)' % (D.render(a_recv), D.render(a_max)),
+                      '%s is not checked against (self.data_recvd, self.local_max_data): got (%s, %s)' % (callee, D.render(a_recv)[:80], D.render(a_max)[:80]))
+    for fn_, instance in ((ctx.pfn('Recv::ingest'), 'ingest'), (ctx.pfn('Recv::reset'), 'reset')):
+        cs = fn_.calls_to('Recv::credit_consumed_by')
+        ctx.floor('f', '%s_credit_check_sites' % instance, len(cs), 1)
+        for c in cs:
+            a_recv, a_max = arg_desc(F, c, 2), arg_desc(F, c, 3)
+            ok = a_recv[0] == 'param' and D.has_param(a_recv, name='received') and a_max[0] == 'param' and D.has_param(a_max, name='max_data')
+            ctx.check(ok, 'f', '%s_forwards_counters' % instance, fn_, c.where(), '(%s, %s)' % (D.render(a_recv), D.render(a_max)),
+                      'credit_consumed_by is not given the caller-supplied (received, max_data)')
+    # data_recvd += new bytes on both accepting paths
+    for w, v in store_values(ctx, SS, 'data_recvd', in_fn=rcv):
+        ok = v[0] == 'call' and v[1] == 'u64::saturating_add' and D.has_field(v[3][0], 'data_recvd') and D.has_call(v[3][1], 'Recv::ingest')
+        ctx.check(ok, 'f', 'data_recvd_counts_new_bytes', rcv, w.where(), D.render(v)[:140], 'data_recvd is not raised by ingest()s new_bytes: ' + D.render(v)[:200])
+    ctx.floor('f', 'data_recvd_stores_in_received', len(store_values(ctx, SS, 'data_recvd', in_fn=rcv)), 1)
+    for w, v in store_values(ctx, SS, 'data_recvd', in_fn=rr):
+        x = v[3][1] if v[0] == 'call' and len(v[3]) == 2 else ('const', '', '', '')
+        ok = v[0] == 'call' and v[1] == 'u64::saturating_add' and D.has_field(v[3][0], 'data_recvd') and x[0] == 'bin' and x[1] == 'Sub' and (D.has_param(x[2], name='final_offset') or D.has_field(x[2], 'final_offset')) and D.has_field(x[3], 'end')
+        ctx.check(ok, 'f', 'data_recvd_counts_reset_remainder', rr, w.where(), D.render(v)[:140], 'data_recvd is not raised by final_offset - end on reset: ' + D.render(v)[:200])
+    ctx.floor('f', 'data_recvd_stores_in_received_reset', len(store_values(ctx, SS, 'data_recvd', in_fn=rr)), 1)
+    # the store in `received` lies on every path from a successful ingest to the function's Ok return
+    ing = rcv.calls_to('Recv::ingest')
+    sts = [w.bb for w, v in store_values(ctx, SS, 'data_recvd', in_fn=rcv)]
+    for c in ing:
+        tb = [x for x in rcv.calls_to('Try::branch') if contains_site(arg_desc(F, x, 0), c)]
+        ok = bool(tb)
+        path = None
+        for t in tb:
+            # continue edge of `?` = the switch target for ControlFlow::Continue (variant 0)
+            for br in branches(F, rcv):
+                if br.desc[0] == 'discr' and contains_site(br.desc[1], t):
+                    cont = br.target(0)
+                    path = path_avoiding(rcv, [cont], rcv.return_blocks(), sts)
+                    if path is not None:
+                        ok = False
+        ctx.check(ok, 'f', 'accepted_frame_always_accounted', rcv, c.where(), 'every path from ingest()? Ok to return stores data_recvd',
+                  'a path accepts stream data without adding it to data_recvd: ' + (fmt_path(rcv, path) if path else 'no `?` found'))
+
+
 def run(ctx):
+    rule_f(ctx)
     rule_a(ctx)
     rule_b(ctx)
     rule_c(ctx)
